@@ -82,6 +82,11 @@ func (t *Teamserver) LinkRemove(ParentAgent *agent.Agent, LinkAgent *agent.Agent
 	LinkAgent.Active = false
 	LinkAgent.Reason = "Disconnected"
 
+	// the link is gone in both directions
+	if LinkAgent.Pivots.Parent == ParentAgent {
+		LinkAgent.Pivots.Parent = nil
+	}
+
 	if UpdateLinks {
 		for i := range ParentAgent.Pivots.Links {
 			if ParentAgent.Pivots.Links[i].NameID == LinkAgent.NameID {
